@@ -108,16 +108,21 @@ def scripts_from_lts(ctx: Ctx, lts, rng):
             es = es[: len(es) // 2] if cnt in (0, 11) else es[: len(es) // 4]
         stay = [e for e in es if e["cnt2"] == e["cnt"]]
         move = [e for e in es if e["cnt2"] != e["cnt"]]
-        host = {"T": ht.TRUSTED_REP, "U": ht.UNTRUSTED_REP}
+        # representative Host per verdict; "U" alternates a foreign name with NO Host header on a server
+        # bound to a trusted address (the debugger must not fall back to SERVER_NAME)
+        def rep(hv, j):
+            if hv == "T":
+                return ht.TRUSTED_REP
+            return ht.UNTRUSTED_REP if j % 2 == 0 else ht.ABSENT_HOSTS[(j // 2) % len(ht.ABSENT_HOSTS)]
         for k in range(0, len(stay), 120):
             steps = ht.prefix_to(cnt)
             for j, e in enumerate(stay[k:k + 120]):
-                steps.append([_q(e["q"]), host[e["q"]["hv"]], j + k, e["o"], e["cnt2"]])
+                steps.append([_q(e["q"]), rep(e["q"]["hv"], j + k), j + k, e["o"], e["cnt2"]])
             steps.append([ht.ATTEMPT["right"], ht.TRUSTED_REP, 0])
             scripts.append({"evalex": evalex, "pin_on": pin_on, "steps": steps, "src": "lts"})
         for j, e in enumerate(move):
             steps = ht.prefix_to(cnt)
-            steps.append([_q(e["q"]), host[e["q"]["hv"]], j, e["o"], e["cnt2"]])
+            steps.append([_q(e["q"]), rep(e["q"]["hv"], j), j, e["o"], e["cnt2"]])
             steps.append([ht.ATTEMPT["right"], ht.TRUSTED_REP, 0])   # probe: is the lock-out state the model's?
             scripts.append({"evalex": evalex, "pin_on": pin_on, "steps": steps, "src": "lts"})
     return scripts
@@ -141,6 +146,10 @@ def scripts_code_to_spec(ctx: Ctx, rng):
     for evalex, pin_on in cfgs:
         steps = [[g, h, i] for i, (h, g) in enumerate(itertools.product(ht.DEBUG_HOSTS, gate))]
         scripts.append({"evalex": evalex, "pin_on": pin_on, "steps": steps, "src": "hosts"})
+    # (a') the Host header ABSENT (no HTTP_HOST key) x SERVER_NAME x SERVER_PORT x every gated command
+    for evalex, pin_on in cfgs:
+        steps = [[g, h, i] for i, (h, g) in enumerate(itertools.product(ht.ABSENT_HOSTS, ht.GATED))]
+        scripts.append({"evalex": evalex, "pin_on": pin_on, "steps": steps, "src": "absent"})
     hosts_full = ["localhost.evil.com", rng.choice(ht.DEBUG_HOSTS)] if q else ht.DEBUG_HOSTS[:: (1 if SCALE >= 1 else 4)]
     for evalex, pin_on in cfgs:
         for h in hosts_full:
@@ -158,6 +167,8 @@ def scripts_code_to_spec(ctx: Ctx, rng):
             if r["cmd"] == "pinauth" and rng.random() < 0.6:
                 r = dict(r, secret="right")
             h = rng.choice(ht.DEBUG_HOSTS) if rng.random() < 0.45 else rng.choice(ht.DEBUG_HOSTS[:6])
+            if rng.random() < 0.12:
+                h = rng.choice(ht.ABSENT_HOSTS)
             steps.append([r, h, rng.randrange(60)])
         scripts.append({"evalex": evalex, "pin_on": pin_on, "steps": steps, "src": "random"})
     # (c) PIN-attempt sequences over {right, wrong, stale-cookie}
@@ -190,7 +201,8 @@ def scripts_code_to_spec(ctx: Ctx, rng):
 def judge_scripts(ctx: Ctx, scripts, kind="dbg"):
     results = pmap(ht.run_script, scripts, workers=ctx.workers, chunksize=8)
     lines = []
-    seen = {"eval_ran": 0, "console": 0, "auth_true": 0, "exhausted": 0, "pin_logged": 0, "refused_400": 0, "cookie_set": 0}
+    seen = {"eval_ran": 0, "console": 0, "auth_true": 0, "exhausted": 0, "pin_logged": 0, "refused_400": 0, "cookie_set": 0,
+            "absent_host_refused": 0}
     for t, (sc, lns) in enumerate(zip(scripts, results)):
         lns[0]["t"] = t
         lines.append(lns[0])
@@ -202,6 +214,7 @@ def judge_scripts(ctx: Ctx, scripts, kind="dbg"):
                 seen[k] += bool(o[k])
             seen["auth_true"] += o["auth"] == "true"
             seen["refused_400"] += o["status"] == 400
+            seen["absent_host_refused"] += (not ln["hpresent"]) and o["status"] == 400
             if ln["cmd"] not in ("none", "resource"):
                 ctx.nontrivial.add(("dbg", sc["evalex"], sc["pin_on"], ln["cmd"], ln["secret"], ln["cookie"], ln["frame"],
                                     ln["pin"], _txt(ln["host"]) if ln["hpresent"] else None, min(ln["cnt"], 12)))
